@@ -582,6 +582,16 @@ func (m *Model) ruleCAS(r *Results) {
 				var sinks, problems []string
 				for _, d := range m.decisions(K, fr) {
 					cd := d.C
+					// a flag that this entry point fixes to a constant ("check the CAS": true): the other
+					// edge cannot be taken on behalf of this entry point
+					if cd.Op == token.ILLEGAL && cd.X != nil {
+						if rv, _ := m.resolve(cd.X, fr); rv != nil {
+							if cst, ok := stripConv(rv).(*ssa.Const); ok && cst.Value != nil && cst.Value.Kind() == constant.Bool {
+								d.cutSucc(c, cd.succWhen(!constant.BoolVal(cst.Value)))
+								continue
+							}
+						}
+					}
 					if _, isEq := cd.equalEdge(); !isEq {
 						continue
 					}
